@@ -5,6 +5,8 @@ R2 operation identity: the only FileSystem method reached from the handler of op
 R3 argument provenance: value-flow of every argument of that call against tables/server_ops.json
 R4 Arc<FS> forwarding, R5 override completeness
 R6 Context::from(&InHeader)
+R7 the pre-dispatch oversize refusal admits every request the negotiated limits allow
+R8 request-side conversions (SetattrIn -> stat64) feed every field from the wire field of the same meaning
 """
 import json
 import os
@@ -103,10 +105,23 @@ def run(ctx):
     ctx.run_rule("R4-arc-forward", r4_arc, F)
     ctx.run_rule("R6-context", r6_context, F)
     ctx.run_rule("R7-oversize-gate", r7_oversize, F)
+    ctx.run_rule("R8-arg-conversions", r8_conversions, F)
     D = ctx.facts("D", required=False)
     if D is not None and D is not F:
         ctx.run_rule("R1-dispatch-D", r1_dispatch_d, D, table)
     ctx.assumptions += ["wire struct definitions are the kernel's (C13)", "FileSystem implementation behind the trait is out of scope"]
+
+
+def r8_conversions(ctx, F):
+    """Arguments that reach the filesystem through a conversion (`SetattrIn -> stat64`): each field of the result comes from the
+    wire field of the same meaning (shared with C13.R4, restricted to request-side conversions)."""
+    from rules import c13
+    t = json.load(open(c13.TABLE))
+    req = {k: v for k, v in t["conversions"].items() if k.startswith("SetattrIn")}
+    if not req:
+        raise core.Anchor("SetattrIn conversion row in tables/abi_names.json")
+    vf.NOCAST[0] = False
+    c13.r4_conversions(ctx, F, {"conversions": req}, floor=False)
 
 
 def r1_dispatch(ctx, F, table):
